@@ -35,6 +35,9 @@ CHECKS.update({
    note="non-termination is observed through the shard watchdog (inconclusive unless it reproduces in isolation); release profile as shipped", ref="DESIGN.md §5 C08"),
 })
 CHECKS.update({
+ "C14": dict(cat="exploration", tech="runtime monitor: differential of the real CLI's declaration file against the module returned by the real loader ABI for the same file and configuration text, over generated projects with randomised naming/export options",
+   text="Generated valid projects (several operations per file, fragments, imports, lower-case operation names) get a configuration in which mode, defaultExportForOperation, capitalizeOperationNames and every variable suffix are set with probability 2/3 each; the real CLI writes the declaration files and a fresh loader instance per operation file is driven through load_config/initiate_task/get_required_files/load_file/emit_js with the same configuration text. Every value export declared (export const, export { X as default }) must be exported by the loader module under the same name, and the definition the declared identifier maps to (through the emitted source map) must be the definition carried by the loader module's document (kind and name of definitions[0]).",
+   note="anonymous operations whose variable name comes out empty are not cases; association relies on the source map (C06)", ref="DESIGN.md §5 C14"),
  "C16": dict(cat="exploration", tech="runtime monitor: real printer output evaluated (JS template literal) and re-parsed by the reference parser, compared with the reference merge of the schema / the parsed document",
    text="(a) random parseable documents of both grammars are parsed and printed by the real code (plain writer and JS template writer) and the printed text, read back by an independent parser with spec string semantics, must denote the same document; the template literal is evaluated (cooked value, unescaped ${ is an error) and must equal the plain printing. (b) valid schemas with hostile descriptions and default strings, split over files and extensions, go through the library route and (sampled) the real CLI's serverGraphqlOutput module; every definition of strip_nitrogql(merge(M)) must be present with identical content and only built-ins may be added.",
    note="trusts refparse.rs and the template evaluator in jsread.rs; string findings are keyed by the class of the source string (block / quoted multi-line / quoted single-line)", ref="DESIGN.md §5 C16"),
